@@ -18,7 +18,7 @@ RULE = (
     "invalid transform calls first (must leave the variable unchanged); 20 random points t per case (parameters re-assigned "
     "too); the identities re-checked inside deep copies / copy_nodes_and_vars rebuilds after values changed in the copy. "
     "Oracle: untouched TFP distribution, independent bijector instance, Jacobian by autodiff. "
-    "Also: integer-valued / untyped initial values (where the TFP bijector accepts them); a second change of variables on the new variable; per_obs True/False carried over. non-trivial = non-identity bijector and a point with |log-Jacobian| > 0.05; distinct by case hash"
+    "Also: integer-valued / untyped initial values (where the TFP bijector accepts them); a second change of variables on the new variable; per_obs True/False carried over. Round 5: weak parameter variables with stale caches through GraphBuilder.transform; default (Identity) bijector / auto_transform on R. non-trivial = non-identity bijector and a point with |log-Jacobian| > 0.05; distinct by case hash"
 )
 REQUIRED = ["identities_hold_in_a_copy", "unchanged_after_failed_transform", "original_value_unchanged", "original_is_bijector_image", "density_change_of_variables",
             "parameter_flag_moved", "original_has_no_distribution", "entry_var_transform_instance",
